@@ -841,7 +841,8 @@ fn deep_cases(thorough: bool) -> Vec<(String, &'static str)> {
     // the regimes of the recorded stack-overflow findings (kept few: each costs a worker restart)
     v.push(("DQ parens 5000".to_string(), "api_deep"));
     v.push(("DQ comments 200000".to_string(), "api_deep"));
-    if thorough { for s in ["not", "neg", "case", "scalarsubq", "func", "bcomments"] { v.push((format!("DQ {} 100000", s), "api_deep")); } v.push(("DQ jsonobj 30000".to_string(), "api_deep")); v.push(("DQ jsonarr 40000".to_string(), "api_deep")); }
+    if thorough { for s in ["not", "neg", "case", "scalarsubq", "func", "bcomments"] { v.push((format!("DQ {} 100000", s), "api_deep")); } }
+    // (deep JSON text, `DQ jsonobj 20000`, also overflows the stack but only after a quadratic scan: too slow for a watchdog-timed run)
     v
 }
 
